@@ -39,4 +39,10 @@ C18_Full == { Lf("f_in",0,0), Lf("f_out",0,0), Lf("f_cmd",0,0), Lf("f_sub",0,0),
 C18_Lite == { Lf("M",0,0), Lf("M",0,1) }
 C18_Constructs == {"seq", "and", "or", "not", "grp", "sub", "fn", "eval", "cs", "pipe", "for2", "if", "case"}
 C18_Cases == { <<1, 1, 0>>, <<2, 3, 1>> }
+
+\* ---- C15a (delivery modes): control flow sample plus $LINENO probes
+C15_Full == { Lf("L",0,0), Lf("M",0,1), Lf("brk",1,0), Lf("ret",5,0), Lf("exit",4,0), Lf("X",0,3) }
+C15_Lite == { Lf("M",0,0), Lf("L",0,0) }
+C15_Constructs == {"seq", "and", "or", "not", "grp", "sub", "fn", "eval", "cs", "for2", "if", "elif", "while", "case"}
+C15_Cases == { <<2, 3, 1>>, <<2, 2, 0>> }
 =============================================================================
